@@ -241,6 +241,14 @@ class Engine:
             return None
         if isinstance(v, tuple) and len(v) == 3 and v[0] == "V" and v[1] == "proj" and isinstance(v[2], tuple) and v[2][0] == "proj":
             parent, path = v[2][1], v[2][2]
+            if isinstance(parent, tuple) and parent[0] == "A" and isinstance(parent[1], tuple) and parent[1][0] == "adt" and (a.db.adts.get(parent[1][1]) or {}).get("kind") == "Union":
+                # reading a union through another field: all fields live at offset 0 - the bytes of the field that was written, cut to the size read
+                act = self.prov(parent[2][0], None) if parent[2] else None
+                sz = self.size_of(ty) if ty is not None else None
+                if act is None or sz is None:
+                    return None
+                sl = self.slice(act[0], ZERO, sz)
+                return None if sl is None else (sl, ty)
             pp = self.prov(parent)
             if pp is None or pp[1] is None:
                 return None
